@@ -1,9 +1,409 @@
 import Dashu.Model.Int.Div
 import Dashu.Proofs.Int.Repr
 /-
-  Refinement of the division layer (`Dashu/Model/Int/Div.lean`) to `/` and `%` on `Nat`/`Int`.
+  Refinement of the division layer (`Dashu/Model/Int/Div.lean`) to `/` and `%` on `Nat`/`Int`,
+  for every word size `W ≥ 1` and every operand length.
 -/
 namespace Dashu.Model.Div
 open Dashu.Model
+
+-- ------------------------------------------------------------------ arithmetic helpers
+
+theorem pow_split {W s : Nat} (h : s ≤ W) : 2 ^ W = 2 ^ (W - s) * 2 ^ s := by
+  rw [← Nat.pow_add]; congr 1; omega
+
+theorem two_mul_W (W : Nat) : 2 ^ (2 * W) = 2 ^ W * 2 ^ W := by
+  rw [← Nat.pow_add]; congr 1; omega
+
+theorem lor_eq_add (m s c : Nat) (hc : c < 2 ^ s) : m * 2 ^ s ||| c = m * 2 ^ s + c := by
+  rw [← Nat.shiftLeft_eq]; exact (Nat.shiftLeft_add_eq_or_of_lt hc m).symm
+
+theorem lor_eq_add' (m s c : Nat) (hc : c < 2 ^ s) : c ||| m * 2 ^ s = m * 2 ^ s + c := by
+  rw [Nat.or_comm]; exact lor_eq_add m s c hc
+
+theorem isPow2_eq {n : Nat} (h : isPow2 n = true) : n = 2 ^ Nat.log2 n := by
+  simpa [isPow2] using h
+
+theorem lz_spec {bits x : Nat} (hx : x ≠ 0) (hlt : x < 2 ^ bits) :
+    lz bits x < bits ∧ 2 ^ (bits - 1) ≤ x * 2 ^ lz bits x ∧ x * 2 ^ lz bits x < 2 ^ bits := by
+  have hk : Nat.log2 x < bits := (Nat.log2_lt hx).mpr hlt
+  have h1 : 2 ^ Nat.log2 x ≤ x := Nat.log2_self_le hx
+  have h2 : x < 2 ^ (Nat.log2 x + 1) := Nat.lt_log2_self
+  simp only [lz, hx, if_false]
+  refine ⟨by omega, ?_, ?_⟩
+  · calc 2 ^ (bits - 1) = 2 ^ Nat.log2 x * 2 ^ (bits - 1 - Nat.log2 x) := by
+          rw [← Nat.pow_add]; congr 1; omega
+      _ ≤ x * 2 ^ (bits - 1 - Nat.log2 x) := Nat.mul_le_mul_right _ h1
+  · calc x * 2 ^ (bits - 1 - Nat.log2 x)
+          < 2 ^ (Nat.log2 x + 1) * 2 ^ (bits - 1 - Nat.log2 x) :=
+            Nat.mul_lt_mul_of_pos_right h2 (Nat.two_pow_pos _)
+      _ = 2 ^ bits := by rw [← Nat.pow_add]; congr 1; omega
+
+/-- dividing a multiple of `2^s` plus a small part -/
+theorem mul_pow_mod (a s W : Nat) (h : s ≤ W) : (a * 2 ^ s) % 2 ^ W = (a % 2 ^ (W - s)) * 2 ^ s := by
+  rw [pow_split h]; exact Nat.mul_mod_mul_right _ _ _
+
+theorem mul_pow_div (a s W : Nat) (h : s ≤ W) : (a * 2 ^ s) / 2 ^ W = a / 2 ^ (W - s) := by
+  rw [pow_split h]; exact Nat.mul_div_mul_right _ _ (Nat.two_pow_pos s)
+
+-- ------------------------------------------------------------------ shl_in_place
+
+theorem shlLoop_spec (W shift : Nat) (hs : shift ≤ W) (ws : List Nat) (c : Nat)
+    (h : IsWords W ws) (hc : c < 2 ^ shift) :
+    let r := shlLoop W shift ws c
+    val W r.1 + 2 ^ (W * ws.length) * r.2 = val W ws * 2 ^ shift + c ∧
+    r.1.length = ws.length ∧ IsWords W r.1 ∧ r.2 < 2 ^ shift := by
+  induction ws generalizing c with
+  | nil => simp [shlLoop, IsWords.nil, hc]
+  | cons w ws ih =>
+    have hw := h.head
+    have hp : 0 < 2 ^ W := Nat.two_pow_pos W
+    have hps : 0 < 2 ^ shift := Nat.two_pow_pos shift
+    have hcarry : (w * 2 ^ shift) / 2 ^ W < 2 ^ shift := by
+      rw [Nat.div_lt_iff_lt_mul hp]
+      calc w * 2 ^ shift < 2 ^ W * 2 ^ shift := Nat.mul_lt_mul_of_pos_right hw hps
+        _ = 2 ^ shift * 2 ^ W := Nat.mul_comm _ _
+    have ⟨i1, i2, i3, i4⟩ := ih ((w * 2 ^ shift) / 2 ^ W) h.tail hcarry
+    simp only [shlLoop, val_cons, List.length_cons]
+    have hor : (w * 2 ^ shift) % 2 ^ W ||| c = (w * 2 ^ shift) % 2 ^ W + c := by
+      rw [mul_pow_mod _ _ _ hs]; exact lor_eq_add _ _ _ hc
+    have hlt : (w * 2 ^ shift) % 2 ^ W + c < 2 ^ W := by
+      rw [mul_pow_mod _ _ _ hs]
+      have : w % 2 ^ (W - shift) < 2 ^ (W - shift) := Nat.mod_lt _ (Nat.two_pow_pos _)
+      calc w % 2 ^ (W - shift) * 2 ^ shift + c < w % 2 ^ (W - shift) * 2 ^ shift + 2 ^ shift := by omega
+        _ = (w % 2 ^ (W - shift) + 1) * 2 ^ shift := by ring
+        _ ≤ 2 ^ (W - shift) * 2 ^ shift := Nat.mul_le_mul_right _ this
+        _ = 2 ^ W := (pow_split hs).symm
+    rw [hor]
+    refine ⟨?_, by simp [i2], IsWords.cons hlt i3, i4⟩
+    rw [Nat.mul_add, Nat.mul_one, Nat.pow_add]
+    have hdm := Nat.div_add_mod (w * 2 ^ shift) (2 ^ W)
+    generalize (w * 2 ^ shift) / 2 ^ W = q at *
+    generalize (w * 2 ^ shift) % 2 ^ W = m at *
+    have e : 2 ^ W * (val W (shlLoop W shift ws q).1 + 2 ^ (W * ws.length) * (shlLoop W shift ws q).2)
+        = 2 ^ W * (val W ws * 2 ^ shift + q) := by rw [i1]
+    nlinarith [e, hdm]
+
+theorem shlInPlace_spec (W shift : Nat) (hs : shift ≤ W) (ws : List Nat) (h : IsWords W ws) :
+    let r := shlInPlace W ws shift
+    val W r.1 + 2 ^ (W * ws.length) * r.2 = val W ws * 2 ^ shift ∧
+    r.1.length = ws.length ∧ IsWords W r.1 ∧ r.2 < 2 ^ shift := by
+  unfold shlInPlace
+  by_cases h0 : shift = 0
+  · simp [h0, h]
+  · simp only [h0, if_false]
+    have := shlLoop_spec W shift hs ws 0 h (Nat.two_pow_pos _)
+    simpa using this
+
+-- ------------------------------------------------------------------ shr_word / shr_in_place / shl_dword
+
+theorem shrWord_spec (W w s : Nat) (hs : s ≤ W) :
+    shrWord W w s = (w / 2 ^ s, (w % 2 ^ s) * 2 ^ (W - s)) := by
+  have hv : (w * 2 ^ W) / 2 ^ s = w * 2 ^ (W - s) := by
+    rw [pow_split hs, ← Nat.mul_assoc]; exact Nat.mul_div_cancel _ (Nat.two_pow_pos s)
+  have h1 := mul_pow_div w (W - s) W (by omega)
+  have h2 := mul_pow_mod w (W - s) W (by omega)
+  have e : W - (W - s) = s := by omega
+  rw [e] at h1 h2
+  simp only [shrWord, hv, h1, h2]
+
+theorem shrLoop_spec (W s : Nat) (hs : s ≤ W) (ws : List Nat) (k : Nat)
+    (h : IsWords W ws) (hk : k < 2 ^ s) :
+    let r := shrLoop W s ws (k * 2 ^ (W - s))
+    ∃ k', r.2 = k' * 2 ^ (W - s) ∧ k' < 2 ^ s ∧
+      val W r.1 * 2 ^ s + k' = val W ws + k * 2 ^ (W * ws.length) ∧
+      r.1.length = ws.length ∧ IsWords W r.1 := by
+  induction ws with
+  | nil => exact ⟨k, by simp [shrLoop, hk, IsWords.nil]⟩
+  | cons w ws ih =>
+    have hw := h.head
+    obtain ⟨k1, e1, hk1, hv, hl, hws⟩ := ih h.tail
+    have hps : 0 < 2 ^ s := Nat.two_pow_pos s
+    have hq : w / 2 ^ s < 2 ^ (W - s) := by
+      rw [Nat.div_lt_iff_lt_mul hps, ← pow_split hs]; exact hw
+    refine ⟨w % 2 ^ s, ?_, Nat.mod_lt _ hps, ?_, ?_, ?_⟩
+    · simp only [shrLoop, shrWord_spec W w s hs]
+    · simp only [shrLoop, shrWord_spec W w s hs, e1, val_cons, List.length_cons]
+      rw [lor_eq_add' _ _ _ hq, Nat.mul_add, Nat.mul_one, Nat.pow_add]
+      have hdm := Nat.div_add_mod w (2 ^ s)
+      have hsp := pow_split hs
+      generalize w / 2 ^ s = a at *
+      generalize w % 2 ^ s = b at *
+      generalize 2 ^ (W - s) = X at *
+      generalize 2 ^ (W * ws.length) = P at *
+      generalize val W (shrLoop W s ws (k * X)).1 = V at *
+      have e : 2 ^ W * (V * 2 ^ s + k1) = 2 ^ W * (val W ws + k * P) := by rw [hv]
+      rw [hsp] at e ⊢
+      nlinarith [e, hdm]
+    · simp [shrLoop, hl]
+    · simp only [shrLoop, shrWord_spec W w s hs, e1]
+      rw [lor_eq_add' _ _ _ hq]
+      refine IsWords.cons ?_ hws
+      calc k1 * 2 ^ (W - s) + w / 2 ^ s < k1 * 2 ^ (W - s) + 2 ^ (W - s) := by omega
+        _ = (k1 + 1) * 2 ^ (W - s) := by ring
+        _ ≤ 2 ^ s * 2 ^ (W - s) := Nat.mul_le_mul_right _ hk1
+        _ = 2 ^ W := by rw [Nat.mul_comm]; exact (pow_split hs).symm
+
+theorem shrInPlaceOneWord_spec (W : Nat) (ws : List Nat) (h : IsWords W ws) :
+    let r := shrInPlaceOneWord ws
+    val W r.1 * 2 ^ W + r.2 = val W ws ∧ r.1.length = ws.length ∧ IsWords W r.1 ∧ r.2 < 2 ^ W := by
+  cases ws with
+  | nil => simp [shrInPlaceOneWord, IsWords.nil, Nat.two_pow_pos]
+  | cons w ws =>
+    simp only [shrInPlaceOneWord, val_append, val_cons, val_nil, List.length_append, List.length_cons,
+      List.length_nil]
+    refine ⟨by ring, trivial, IsWords.append h.tail (IsWords.cons (Nat.two_pow_pos W) (IsWords.nil W)), h.head⟩
+
+/-- `shr_in_place(words, shift)`, `shift ≤ W`: quotient by `2^shift` in place, the shifted-out
+    bits `k'` returned in the high bits of a word -/
+theorem shrInPlace_spec (W s : Nat) (hs : s ≤ W) (ws : List Nat) (h : IsWords W ws) :
+    let r := shrInPlace W ws s
+    ∃ k', r.2 = k' * 2 ^ (W - s) ∧ k' < 2 ^ s ∧ val W r.1 * 2 ^ s + k' = val W ws ∧
+      r.1.length = ws.length ∧ IsWords W r.1 := by
+  unfold shrInPlace
+  by_cases hW : s = W
+  · subst hW
+    have ⟨a, b, c, d⟩ := shrInPlaceOneWord_spec s ws h
+    simp only [if_true]
+    exact ⟨(shrInPlaceOneWord ws).2, by simp, d, a, b, c⟩
+  · simp only [hW, if_false, shrInPlaceWithCarry]
+    by_cases h0 : s = 0
+    · subst h0; exact ⟨0, by simp [h]⟩
+    · simp only [h0, if_false]
+      have := shrLoop_spec W s hs ws 0 h (Nat.two_pow_pos s)
+      simpa using this
+
+theorem shlDword_spec (W dw s : Nat) (hs : s ≤ W) (hdw : dw < 2 ^ (2 * W)) :
+    let r := shlDword W dw s
+    r.1 + 2 ^ W * r.2.1 + 2 ^ (2 * W) * r.2.2 = dw * 2 ^ s ∧
+    r.1 < 2 ^ W ∧ r.2.1 < 2 ^ W ∧ r.2.2 < 2 ^ s := by
+  have hp : 0 < 2 ^ W := Nat.two_pow_pos W
+  have hps : 0 < 2 ^ s := Nat.two_pow_pos s
+  have hhi : dw / 2 ^ W < 2 ^ W := by
+    rw [Nat.div_lt_iff_lt_mul hp, ← two_mul_W]; exact hdw
+  have hlo : dw % 2 ^ W < 2 ^ W := Nat.mod_lt _ hp
+  have hc : (dw % 2 ^ W * 2 ^ s) / 2 ^ W < 2 ^ s := by
+    rw [Nat.div_lt_iff_lt_mul hp]
+    calc dw % 2 ^ W * 2 ^ s < 2 ^ W * 2 ^ s := Nat.mul_lt_mul_of_pos_right hlo hps
+      _ = 2 ^ s * 2 ^ W := Nat.mul_comm _ _
+  simp only [shlDword]
+  rw [lor_eq_add _ _ _ hc]
+  have hdm := Nat.div_add_mod dw (2 ^ W)
+  have ha := Nat.div_add_mod (dw % 2 ^ W * 2 ^ s) (2 ^ W)
+  have hb := Nat.div_add_mod (dw / 2 ^ W * 2 ^ s + (dw % 2 ^ W * 2 ^ s) / 2 ^ W) (2 ^ W)
+  have hblt : dw / 2 ^ W * 2 ^ s + (dw % 2 ^ W * 2 ^ s) / 2 ^ W < 2 ^ s * 2 ^ W := by
+    calc dw / 2 ^ W * 2 ^ s + (dw % 2 ^ W * 2 ^ s) / 2 ^ W < dw / 2 ^ W * 2 ^ s + 2 ^ s := by omega
+      _ = (dw / 2 ^ W + 1) * 2 ^ s := by ring
+      _ ≤ 2 ^ W * 2 ^ s := Nat.mul_le_mul_right _ hhi
+      _ = 2 ^ s * 2 ^ W := Nat.mul_comm _ _
+  refine ⟨?_, Nat.mod_lt _ hp, Nat.mod_lt _ hp, (Nat.div_lt_iff_lt_mul hp).mpr hblt⟩
+  rw [two_mul_W]
+  generalize dw / 2 ^ W = hi at *
+  generalize dw % 2 ^ W = lo at *
+  generalize (lo * 2 ^ s) / 2 ^ W = c at *
+  generalize (lo * 2 ^ s) % 2 ^ W = n0 at *
+  generalize (hi * 2 ^ s + c) / 2 ^ W = n2 at *
+  generalize (hi * 2 ^ s + c) % 2 ^ W = n1 at *
+  nlinarith [hdm, ha, hb]
+
+-- ------------------------------------------------------------------ primitive contracts
+
+theorem div2by1_ok (W d a : Nat) (h : a / 2 ^ W < d) : div2by1 W d a = .ok (a / d, a % d) := by
+  simp [div2by1, h]
+
+theorem div3by2_ok (W d aLo aHi : Nat) (h : aHi < d) :
+    div3by2 W d aLo aHi = .ok ((aLo + 2 ^ W * aHi) / d, (aLo + 2 ^ W * aHi) % d) := by
+  simp [div3by2, h]
+
+theorem div4by2_ok (W d aLo aHi : Nat) (h : aHi < d) :
+    div4by2 W d aLo aHi = .ok ((aLo + 2 ^ (2 * W) * aHi) / d, (aLo + 2 ^ (2 * W) * aHi) % d) := by
+  simp [div4by2, h]
+
+theorem normNew_ok (bits d : Nat) (h : 2 ^ (bits - 1) ≤ d) : normNew bits d = .ok d := by
+  simp [normNew, h]
+
+/-- `(w + B·r) / B = r` for a word `w` -/
+theorem add_mul_div_word (W w r : Nat) (hw : w < 2 ^ W) : (w + 2 ^ W * r) / 2 ^ W = r := by
+  rw [Nat.add_mul_div_left _ _ (Nat.two_pow_pos W), Nat.div_eq_of_lt hw, Nat.zero_add]
+
+-- ------------------------------------------------------------------ word divisor
+
+theorem fastDivByWordLoop_spec (W d : Nat) (hd : 0 < d) (hdW : d ≤ 2 ^ W) (ws : List Nat) (rem : Nat)
+    (h : IsWords W ws) (hr : rem < d) :
+    ∃ qs r, fastDivByWordLoop W d ws rem = .ok (qs, r) ∧
+      val W qs * d + r = val W ws + 2 ^ (W * ws.length) * rem ∧ r < d ∧
+      qs.length = ws.length ∧ IsWords W qs := by
+  induction ws with
+  | nil => exact ⟨[], rem, by simp [fastDivByWordLoop, IsWords.nil, hr]⟩
+  | cons w ws ih =>
+    have hw := h.head
+    obtain ⟨qs, r, e, hv, hrd, hl, hq⟩ := ih h.tail
+    have hpre : (w + 2 ^ W * r) / 2 ^ W < d := by rw [add_mul_div_word W w r hw]; exact hrd
+    refine ⟨(w + 2 ^ W * r) / d :: qs, (w + 2 ^ W * r) % d, ?_, ?_, Nat.mod_lt _ hd, by simp [hl], ?_⟩
+    · simp only [fastDivByWordLoop, e, bind, Except.bind, div2by1_ok W d _ hpre, pure, Except.pure]
+    · simp only [val_cons, List.length_cons]
+      rw [Nat.mul_add, Nat.mul_one, Nat.pow_add]
+      have hdm := Nat.div_add_mod (w + 2 ^ W * r) d
+      generalize (w + 2 ^ W * r) / d = q at *
+      generalize (w + 2 ^ W * r) % d = r' at *
+      have e' : 2 ^ W * (val W qs * d + r) = 2 ^ W * (val W ws + 2 ^ (W * ws.length) * rem) := by rw [hv]
+      nlinarith [e', hdm]
+    · refine IsWords.cons ?_ hq
+      rw [Nat.div_lt_iff_lt_mul hd]
+      calc w + 2 ^ W * r < 2 ^ W + 2 ^ W * r := by omega
+        _ = 2 ^ W * (r + 1) := by ring
+        _ ≤ 2 ^ W * d := Nat.mul_le_mul_left _ hrd
+
+/-- un-shift of quotient/remainder after dividing the shifted dividend by the shifted divisor -/
+theorem unshift (Q R X rhs s : Nat) (h : Q * (rhs * 2 ^ s) + R = X * 2 ^ s) (hR : R < rhs * 2 ^ s) :
+    Q * rhs + R / 2 ^ s = X ∧ R / 2 ^ s < rhs := by
+  have hps : 0 < 2 ^ s := Nat.two_pow_pos s
+  have hdvd : 2 ^ s ∣ R := by
+    have h1 : 2 ^ s ∣ Q * (rhs * 2 ^ s) + R := by rw [h]; exact Nat.dvd_mul_left _ _
+    have h2 : 2 ^ s ∣ Q * (rhs * 2 ^ s) := by
+      rw [← Nat.mul_assoc]; exact Nat.dvd_mul_left _ _
+    exact (Nat.dvd_add_right h2).mp h1
+  obtain ⟨t, ht⟩ := hdvd
+  have hdiv : R / 2 ^ s = t := by rw [ht]; exact Nat.mul_div_cancel_left _ hps
+  rw [hdiv]
+  constructor
+  · apply Nat.eq_of_mul_eq_mul_right hps
+    rw [← h, ht]; ring
+  · apply Nat.lt_of_mul_lt_mul_right (a := 2 ^ s)
+    rw [ht] at hR; rw [Nat.mul_comm t]; exact hR
+
+theorem fastDivByWordInPlace_spec (W rhs shift : Nat) (ws : List Nat) (h : IsWords W ws)
+    (hrhs : 0 < rhs) (hs : shift ≤ W) (hd : rhs * 2 ^ shift ≤ 2 ^ W) :
+    ∃ qs r, fastDivByWordInPlace W ws shift (rhs * 2 ^ shift) = .ok (qs, r) ∧
+      val W qs * rhs + r = val W ws ∧ r < rhs ∧ qs.length = ws.length ∧ IsWords W qs := by
+  have hps : 0 < 2 ^ shift := Nat.two_pow_pos shift
+  have ⟨s1, s2, s3, s4⟩ := shlInPlace_spec W shift hs ws h
+  have hcd : (shlInPlace W ws shift).2 < rhs * 2 ^ shift :=
+    Nat.lt_of_lt_of_le s4 (Nat.le_mul_of_pos_left _ hrhs)
+  obtain ⟨qs, r, e, hv, hr, hl, hq⟩ :=
+    fastDivByWordLoop_spec W (rhs * 2 ^ shift) (Nat.mul_pos hrhs hps) hd _ _ s3 hcd
+  rw [s2] at hv hl
+  have ⟨u1, u2⟩ := unshift (val W qs) r (val W ws) rhs shift (by rw [hv, s1]) hr
+  refine ⟨qs, r / 2 ^ shift, ?_, u1, u2, hl, hq⟩
+  simp only [fastDivByWordInPlace, e, bind, Except.bind, pure, Except.pure]
+
+theorem isPow2_log_lt {n b : Nat} (h : isPow2 n = true) (hlt : n < 2 ^ b) : Nat.log2 n < b := by
+  have e := isPow2_eq h
+  have hn : n ≠ 0 := by
+    intro h0; rw [h0] at e; simp at e
+  exact (Nat.log2_lt hn).mpr hlt
+
+/-- `div_by_word_in_place` = exact division of the slice by a non-zero word -/
+theorem divByWordInPlace_spec (W rhs : Nat) (ws : List Nat) (h : IsWords W ws)
+    (hrhs : 0 < rhs) (hlt : rhs < 2 ^ W) :
+    ∃ qs r, divByWordInPlace W ws rhs = .ok (qs, r) ∧
+      val W qs * rhs + r = val W ws ∧ r < rhs ∧ qs.length = ws.length ∧ IsWords W qs := by
+  unfold divByWordInPlace
+  by_cases h1 : rhs = 1
+  · subst h1; exact ⟨ws, 0, by simp [h]⟩
+  · simp only [h1, if_false]
+    by_cases hp : isPow2 rhs = true
+    · simp only [hp, if_true]
+      have hk := isPow2_log_lt hp hlt
+      have e := isPow2_eq hp
+      obtain ⟨k', e1, hk', hv, hl, hw⟩ := shrInPlace_spec W (Nat.log2 rhs) (by omega) ws h
+      refine ⟨_, _, rfl, ?_, ?_, hl, hw⟩
+      · show val W (shrInPlace W ws (Nat.log2 rhs)).1 * rhs
+            + (shrInPlace W ws (Nat.log2 rhs)).2 / 2 ^ (W - Nat.log2 rhs) = val W ws
+        rw [e1, Nat.mul_div_cancel _ (Nat.two_pow_pos _)]
+        generalize Nat.log2 rhs = k at *
+        subst e
+        exact hv
+      · show (shrInPlace W ws (Nat.log2 rhs)).2 / 2 ^ (W - Nat.log2 rhs) < rhs
+        rw [e1, Nat.mul_div_cancel _ (Nat.two_pow_pos _)]
+        generalize Nat.log2 rhs = k at *
+        subst e
+        exact hk'
+    · simp only [hp]
+      have ⟨l1, l2, l3⟩ := lz_spec (bits := W) (Nat.pos_iff_ne_zero.mp hrhs) hlt
+      have hmod : rhs * 2 ^ lz W rhs % 2 ^ W = rhs * 2 ^ lz W rhs := Nat.mod_eq_of_lt l3
+      obtain ⟨qs, r, e, rest⟩ :=
+        fastDivByWordInPlace_spec W rhs (lz W rhs) ws h hrhs (by omega) (Nat.le_of_lt l3)
+      refine ⟨qs, r, ?_, rest⟩
+      simp only [hmod, normNew_ok W _ l2, bind, Except.bind, e]
+      rfl
+
+theorem mod_step (a b m d : Nat) : (a + m * (b % d)) % d = (a + m * b) % d := by
+  rw [Nat.add_mod, Nat.mul_mod, Nat.mod_mod, ← Nat.mul_mod, ← Nat.add_mod]
+
+theorem div1by1_snd (W d a : Nat) (_hd : 0 < d) (hn : 2 ^ W ≤ 2 * d) (ha : a < 2 ^ W) :
+    (div1by1 d a).2 = a % d := by
+  unfold div1by1
+  by_cases h : a < d
+  · simp [h, Nat.mod_eq_of_lt h]
+  · simp only [h, if_false]
+    have h2 : a - d < d := by omega
+    rw [Nat.mod_eq_sub_mod (by omega), Nat.mod_eq_of_lt h2]
+
+/-- `fast_rem_by_normalized_word` = remainder of the slice by the normalised word `d` -/
+theorem fastRemByNormalizedWord_spec (W d : Nat) (hd : 0 < d) (_hdW : d ≤ 2 ^ W) (hn : 2 ^ W ≤ 2 * d)
+    (ws : List Nat) (h : IsWords W ws) (hne : ws ≠ []) :
+    fastRemByNormalizedWord W d ws = .ok (val W ws % d) := by
+  induction ws with
+  | nil => exact absurd rfl hne
+  | cons w ws ih =>
+    cases ws with
+    | nil =>
+      simp only [fastRemByNormalizedWord, val_cons, val_nil, Nat.mul_zero, Nat.add_zero]
+      rw [div1by1_snd W d w hd hn h.head]
+    | cons w' ws' =>
+      have e := ih h.tail (by simp)
+      have hr : val W (w' :: ws') % d < d := Nat.mod_lt _ hd
+      have hpre : (w + 2 ^ W * (val W (w' :: ws') % d)) / 2 ^ W < d := by
+        rw [add_mul_div_word W w _ h.head]; exact hr
+      simp only [fastRemByNormalizedWord, e, bind, Except.bind, div2by1_ok W d _ hpre, pure, Except.pure]
+      rw [mod_step]
+      rfl
+
+theorem word_mod_pow (W k w v : Nat) (hk : k ≤ W) : (w + 2 ^ W * v) % 2 ^ k = w % 2 ^ k := by
+  rw [pow_split hk, Nat.mul_comm (2 ^ (W - k)), Nat.mul_assoc]
+  exact Nat.add_mul_mod_self_left _ _ _
+
+/-- the final un-normalisation of `rem_by_word` / `rem_by_dword` -/
+theorem rem_unshift (X rhs s : Nat) :
+    ((X % (rhs * 2 ^ s)) * 2 ^ s % (rhs * 2 ^ s)) / 2 ^ s = X % rhs := by
+  rw [Nat.mul_mod_mul_right, Nat.mod_mod_of_dvd _ (Nat.dvd_mul_right rhs (2 ^ s)),
+    Nat.mul_div_cancel _ (Nat.two_pow_pos s)]
+
+/-- `rem_by_word` = remainder of the slice by a non-zero word -/
+theorem remByWord_spec (W rhs : Nat) (ws : List Nat) (h : IsWords W ws) (hne : ws ≠ [])
+    (hrhs : 0 < rhs) (hlt : rhs < 2 ^ W) :
+    remByWord W ws rhs = .ok (val W ws % rhs) := by
+  unfold remByWord
+  by_cases hp : isPow2 rhs = true
+  · simp only [hp, if_true]
+    have hk := isPow2_log_lt hp hlt
+    have e := isPow2_eq hp
+    cases ws with
+    | nil => exact absurd rfl hne
+    | cons w ws =>
+      simp only [val_cons]
+      generalize Nat.log2 rhs = k at *
+      subst e
+      rw [Nat.and_two_pow_sub_one_eq_mod, word_mod_pow W _ w _ (by omega)]
+  · rw [if_neg hp]
+    have ⟨l1, l2, l3⟩ := lz_spec (bits := W) (Nat.pos_iff_ne_zero.mp hrhs) hlt
+    have hmod : rhs * 2 ^ lz W rhs % 2 ^ W = rhs * 2 ^ lz W rhs := Nat.mod_eq_of_lt l3
+    have hps : 0 < 2 ^ lz W rhs := Nat.two_pow_pos _
+    have hdpos : 0 < rhs * 2 ^ lz W rhs := Nat.mul_pos hrhs hps
+    have hn : 2 ^ W ≤ 2 * (rhs * 2 ^ lz W rhs) := by
+      have : 2 ^ W = 2 * 2 ^ (W - 1) := by
+        rw [← Nat.pow_succ']; congr 1; omega
+      omega
+    have e := fastRemByNormalizedWord_spec W _ hdpos (Nat.le_of_lt l3) hn ws h hne
+    have hr : val W ws % (rhs * 2 ^ lz W rhs) < rhs * 2 ^ lz W rhs := Nat.mod_lt _ hdpos
+    have hpre : (val W ws % (rhs * 2 ^ lz W rhs) * 2 ^ lz W rhs) / 2 ^ W < rhs * 2 ^ lz W rhs := by
+      rw [Nat.div_lt_iff_lt_mul (Nat.two_pow_pos W)]
+      calc val W ws % (rhs * 2 ^ lz W rhs) * 2 ^ lz W rhs
+            < 2 ^ W * 2 ^ lz W rhs := Nat.mul_lt_mul_of_pos_right (Nat.lt_trans hr l3) hps
+        _ ≤ 2 ^ W * (rhs * 2 ^ lz W rhs) := Nat.mul_le_mul_left _ (Nat.le_mul_of_pos_left _ hrhs)
+        _ = rhs * 2 ^ lz W rhs * 2 ^ W := Nat.mul_comm _ _
+    simp only [hmod, normNew_ok W _ l2, bind, Except.bind, e, div2by1_ok W _ _ hpre, pure, Except.pure]
+    rw [rem_unshift]
 
 end Dashu.Model.Div
